@@ -13,7 +13,7 @@ static volatile long g_assertHits = 0;
 static vh::Log* g_log = nullptr;
 extern "C" void hfsm2_verif_break(const char* file, int line) {
 	++g_assertHits;
-	if (g_log && g_assertHits <= 3000) { const char* b = strrchr(file, '/'); g_log->tag('B'); g_log->s(b ? b + 1 : file); g_log->i(line); g_log->nl(); }
+	if (g_log && g_assertHits <= 3000) { const char* b = strrchr(file, '/'); g_log->pending += "B "; g_log->pending += (b ? b + 1 : file); g_log->pending += ' '; g_log->pending += std::to_string(line); g_log->pending += '\n'; }
 }
 #endif
 
@@ -95,6 +95,7 @@ struct Driver {
 	int replica = 0;		// keep instance 2 in step with instance 0 through replayTransitions
 	int useLogger = 1, verboseMethods = 0;
 	int fillByte = -1;
+	int lastOp = -1;
 	uint64_t s = 99;
 	uint64_t next() { s = mix(s); return s; }
 
